@@ -272,6 +272,27 @@ def run_times(spec, ctx):
                 ctx.violation("C17:difference-raises:time-of-day", "(date('%s') + %d) - date('%s') -> %s" % (s0, k, s0, core.safe_str(o.exc, 100)), {"dt": s0})
             elif str(o.value) != want:
                 ctx.violation("C17:difference:time-of-day", "[(d+%d)-d, d-(d-%d), (d+%d)-%d] for d = date('%s') is %s, calendar says %s" % (k, k, k, k, s0, o.value, want), {"dt": s0})
+        if i % 6 == 4:
+            # dates that carry a fraction of a second: the current time from date(), and a host-supplied value
+            import ckl.values as V
+            env = ckl.functions.Environment()
+            us = r.choice([1, 499, 500, 501, 999, 1000, 123456, 500000, 999499, 999500, 999999])
+            hd = dt.replace(microsecond=us)
+            env.put("hd", V.ValueDate(hd))
+            k = r.choice([1, 2, 7, 30, 365, 1000])
+            if y == 9999:
+                k = 1 if (dt.month, dt.day) < (12, 28) else 0
+            k = min(k, (dt.date() - datetime.date(1900, 1, 1)).days)     # stay inside 1900-01-01 .. 9999-12-31
+            src = "def nd = date(); [(hd + %d) - hd, hd - (hd - %d), (nd + %d) - nd, nd - (nd - %d)]" % (k, k, k, k)
+            o = observe(lambda: it.interpret(src, "c17", env), 3000000)
+            ctx.count("program_evaluations")
+            ctx.count("subsecond_differences")
+            ctx.case(("subsecond", hd.isoformat(), k))
+            want = "[%d, %d, %d, %d]" % (k, k, k, k)
+            if o.kind != "value":
+                ctx.violation("C17:difference-raises:subsecond", "%s with hd = %s -> %s" % (src, hd.isoformat(), core.safe_str(o.exc, 100)), {"dt": hd.isoformat()})
+            elif str(o.value) != want:
+                ctx.violation("C17:difference:subsecond", "%s with hd = %s is %s, calendar says %s" % (src, hd.isoformat(), o.value, want), {"dt": hd.isoformat()})
         if i % 20 == 0:
             s = dt.strftime("%Y%m%d%H%M%S")
             env = ckl.functions.Environment()
